@@ -228,5 +228,22 @@ CHECKS["C15"] = {
             "boundaries of the real process (all of them in the thorough tier). cmake/QmluicMacros.cmake is not exercised (no cmake project build here).",
 }
 
+CHECKS["C18"] = {
+    "text": "Proofs (closed under the global context) over model/Modules.v (the directory work-list of qmldir.rs populate_directories with its visited check; the custom "
+            "widget collection of uigen/form.rs): the directories registered are EXACTLY the import-reachability closure of the sources' directories "
+            "(C18_discovery_exact: soundness by induction over the work-list, completeness by the closed-up-to-pending invariant), hence the same for every order and "
+            "multiplicity of the source arguments (C18_discovery_order_independent); discovery terminates on every layout, mutually importing directories included "
+            "-- the fuel |dirs|*(maxout+2)+|sources|+1 always suffices (C18_discovery_terminates, measure: unvisited*(maxout+2)+|pending|); each custom class "
+            "instantiated in a document is listed exactly once when its super class resolves (C18_customwidgets_once). Tie: the set of directory modules the real "
+            "populate_directories registers vs the model on the import graph of generated layouts. On the real pipeline: normal termination on cyclic imports and "
+            "mutually inheriting components; per source, identical .ui and diagnostics for every order of the source arguments; <customwidgets> = each "
+            "instantiated component once with class, extends = class of its own root object, header by the file-name rule; instances accept base-class properties; "
+            "unresolvable/cyclic super classes are diagnosed.",
+    "technique": "Coq proof of exactness, order-independence and termination of the directory work-list + differential check of the visited set + multi-order runs of the real pipeline",
+    "design_ref": "5 C18",
+    "note": "Trusted: harness `vh project`; read_dir order and case-insensitive file systems are not explored; component names are kept globally unique by the generator. "
+            "Property lookup through the component's base class is C17's subject (class graph).",
+}
+
 NOT_YET = {
 }
